@@ -29,11 +29,19 @@ def gen_case(rnd, tier: str, i: Any) -> Dict[str, Any]:
 
 def fixed_cases(tier: str):
     from hv import samples
-    return samples.sample_cases(tier)
+    out = samples.sample_cases(tier)
+    if tier == "thorough":
+        out = out + [{"kind": "repo_tests", "file": "test_trace_analysis.py"}]      # with the interval-merge contract attached
+    return out
 
 
 def run_case(case: Dict[str, Any], ctx: Any) -> core.CaseResult:
     res = core.CaseResult()
+    if case.get("kind") == "repo_tests":
+        from hv.mon import repotests
+        res.key = "repo_tests:" + case["file"]
+        repotests.run(case["file"], res, ctx)
+        return res
     per_rank = c04.kept_activities(case)
     exp = {}
     for r, acts in per_rank.items():
